@@ -230,6 +230,12 @@ def producerKind : String → Option NodeKind
   | "bdd_true" | "bdd_false" | "bdd_low" | "bdd_high" => some .borrowed
   | _ => none
 
+/-- calls that return a handle whose node the MANAGER keeps referenced for as long as it lives (a BDD
+projection function, `permanent` above): when the local name of such a handle is rebound, the node
+stays alive.  Tied to the source by `permanentHandles_ok` (DDProps/C19): in every back end where a
+path relies on this, the method is followed and wraps nothing but the result of a `permanent` call. -/
+def permanentHandleCalls : List String := ["self.var"]
+
 /-- functions that add one reference to their argument -/
 def isRefFn : String → Bool
   | "Cudd_Ref" | "cuddRef" | "sylvan_ref" | "bdd_addref" => true
@@ -331,6 +337,8 @@ structure ContSt where
   released : Bool := false     -- every element was dereferenced and nothing was stored since
   everReleased : Bool := false -- every element was dereferenced at some moment of the path
   freed : Bool := false
+  filling : Bool := false      -- (array) inside, or thrown out of, a loop that stores into it: slots are missing
+  filled : Bool := false       -- (array) a loop that stores into it ran until its iterator was exhausted
 deriving Repr, Inhabited
 
 def findCont (cs : List ContSt) (c : Nat) : Option ContSt :=
@@ -377,6 +385,8 @@ def derefAllStep (float : Bool) (s : PathSt) (cs : List ContSt) (c : Nat) (fn bo
     if k.released then .error (.bad "the references of the container were already given back" c) else
     if k.kind == .array && k.size != bound then
       .error (.bad "the loop that gives the references back does not run over the allocated size" c) else
+    if k.kind == .array && (k.filling || !k.filled) then
+      .error (.bad "every slot of an array is dereferenced, but the loop that fills it was not completed (or there is none)" c) else
     -- the references of the container go away …
     let s1 := s.map fun n => { n with inCont := n.inCont - k.owned.count n.id }
     -- … and with them what only the container kept alive: its elements that were loaded before,
@@ -390,32 +400,49 @@ def derefAllStep (float : Bool) (s : PathSt) (cs : List ContSt) (c : Nat) (fn bo
       else s1
     .ok (s2, setCont cs { k with owned := [], mayHold := false, released := true, everReleased := true })
 
+/-- per enclosing loop iteration: the references the function held on each node when the iteration began -/
+abbrev LoopStack := List (List (Nat × Int))
+
+/-- how a path ends: it reaches a `return` / `raise` / an exception from a callee in the state
+`(s, cs)`, or an event in its middle is refused (`stop (.bad …)`) or shows that the path cannot be
+taken (`stop .ok`) -/
+inductive PathEnd
+  | fin (s : PathSt) (cs : List ContSt)
+  | stop (v : PathVerdict)
+deriving Repr, Inhabited
+
+def heldSnapshot (s : PathSt) : List (Nat × Int) := s.map fun n => (n.id, n.held)
+
+/-- every node holds what it held when the iteration began (a node made inside it: nothing) -/
+def iterationNeutral (snap : List (Nat × Int)) (s : PathSt) : Option Nat :=
+  (List.find? (fun (n : NodeSt) => n.held != ((snap.find? (·.1 == n.id)).map (·.2)).getD 0) s).map (·.id)
+
 /-- Run the events of one path.  `float` selects the additional check that an unprotected
 fresh node is never used after a later node-creating call (or a recursive dereference). -/
-def runPathC (loc : List String) (float : Bool) (returnsNode : Bool) :
-    PathSt → List ContSt → List CEv → PathVerdict
-  | s, cs, [] => endOkC s cs
-  | s, cs, ev :: rest =>
+def runPathS (loc : List String) (float : Bool) (returnsNode : Bool) :
+    LoopStack → PathSt → List ContSt → List CEv → PathEnd
+  | _, s, cs, [] => .fin s cs
+  | ls, s, cs, ev :: rest =>
     match ev with
     | .param x _ =>
-      runPathC loc float returnsNode (s.set ⟨x, .borrowed, 0, 0, 0, 0, false, false, [], 0, none⟩) cs rest
+      runPathS loc float returnsNode ls (s.set ⟨x, .borrowed, 0, 0, 0, 0, false, false, [], 0, none⟩) cs rest
     | .produce x fn args =>
       match produceStep loc float s x fn args with
-      | .error v => v
-      | .ok s' => runPathC loc float returnsNode s' cs rest
+      | .error v => .stop v
+      | .ok s' => runPathS loc float returnsNode ls s' cs rest
     | .ref x fn =>
-      if !isRefFn fn then .bad ("not a reference function: " ++ fn) x else
+      if !isRefFn fn then .stop (.bad ("not a reference function: " ++ fn) x) else
       match s.node? x with
-      | none => .bad "ref of an untracked node" x
+      | none => .stop (.bad "ref of an untracked node" x)
       | some n =>
-        if float && n.exposed then .bad "unprotected node used after a node-creating call or a recursive dereference" x else
-        runPathC loc float returnsNode (s.set { n with held := n.held + 1, refs := n.refs + 1 }) cs rest
+        if float && n.exposed then .stop (.bad "unprotected node used after a node-creating call or a recursive dereference" x) else
+        runPathS loc float returnsNode ls (s.set { n with held := n.held + 1, refs := n.refs + 1 }) cs rest
     | .deref x fn =>
-      if !isDerefFn fn then .bad ("not a dereference function: " ++ fn) x else
+      if !isDerefFn fn then .stop (.bad ("not a dereference function: " ++ fn) x) else
       match s.node? x with
-      | none => .bad "deref of an untracked node" x
+      | none => .stop (.bad "deref of an untracked node" x)
       | some n =>
-        if n.held + (n.wraps : Int) < 1 then .bad "deref without a reference to give back" x else
+        if n.held + (n.wraps : Int) < 1 then .stop (.bad "deref without a reference to give back" x) else
         -- a RECURSIVE dereference frees what only `x` kept alive: like a node-creating call it
         -- exposes every node that is unprotected at this moment — a fresh result that may be a
         -- descendant of, or equal to, the released temporary.  Not exposed: a fresh node that was
@@ -426,114 +453,208 @@ def runPathC (loc : List String) (float : Bool) (returnsNode : Bool) :
             s1.map fun k =>
               if k.protected_ || k.id == x || k.madeFrom.contains x then k else { k with exposed := true }
           else s1
-        runPathC loc float returnsNode s2 cs rest
+        runPathS loc float returnsNode ls s2 cs rest
     | .wrap x =>
       match s.node? x with
-      | none => .bad "wrap of an untracked node" x
+      | none => .stop (.bad "wrap of an untracked node" x)
       | some n =>
-        if float && n.exposed then .bad "unprotected node used after a node-creating call or a recursive dereference" x else
-        runPathC loc float returnsNode (s.set { n with wraps := n.wraps + 1 }) cs rest
+        if float && n.exposed then .stop (.bad "unprotected node used after a node-creating call or a recursive dereference" x) else
+        runPathS loc float returnsNode ls (s.set { n with wraps := n.wraps + 1 }) cs rest
     | .initCall x =>
       match s.node? x with
-      | none => .bad "init of an untracked node" x
-      | some n => runPathC loc float returnsNode (s.set { n with wraps := n.wraps + 1 }) cs rest
+      | none => .stop (.bad "init of an untracked node" x)
+      | some n => runPathS loc float returnsNode ls (s.set { n with wraps := n.wraps + 1 }) cs rest
     | .isNull x =>
       match s.node? x with
-      | none => runPathC loc float returnsNode s cs rest
+      | none => runPathS loc float returnsNode ls s cs rest
       | some n =>
         -- a call that would hand over a reference hands over none when it returns NULL
         let held := if n.kind == .owned && n.refs == 0 && n.derefs == 0 then 0 else n.held
-        runPathC loc float returnsNode (s.set { n with null := true, held := held }) cs rest
-    | .guard _ _ => runPathC loc float returnsNode s cs rest
-    | .retHandle => endOkC s cs
+        runPathS loc float returnsNode ls (s.set { n with null := true, held := held }) cs rest
+    | .guard _ _ => runPathS loc float returnsNode ls s cs rest
+    | .retHandle => .fin s cs
     | .retNode x =>
-      if !returnsNode then .bad "a raw node is returned to Python without a handle" x else
+      if !returnsNode then .stop (.bad "a raw node is returned to Python without a handle" x) else
       match s.node? x with
-      | none => .bad "return of an untracked node" x
+      | none => .stop (.bad "return of an untracked node" x)
       | some n =>
-        if float && n.exposed then .bad "unprotected node used after a node-creating call or a recursive dereference" x else endOkC s cs
-    | .retNull => endOkC s cs
-    | .raise _ => endOkC s cs
+        if float && n.exposed then .stop (.bad "unprotected node used after a node-creating call or a recursive dereference" x) else .fin s cs
+    | .retNull => .fin s cs
+    | .raise _ => .fin s cs
+    | .raiseIn _ _ => .fin s cs
+    -- which slots of an array were filled: only "the loop that fills it ran to its end"
+    | .fillBegin c =>
+      match findCont cs c with
+      | none => .stop (.bad "a loop stores into an untracked array" c)
+      | some k => runPathS loc float returnsNode ls s (setCont cs { k with filling := true }) rest
+    | .fillEnd c =>
+      match findCont cs c with
+      | none => .stop (.bad "a loop stores into an untracked array" c)
+      | some k => runPathS loc float returnsNode ls s (setCont cs { k with filling := false, filled := true }) rest
+    -- the handle through which `x` was reached is gone (its name was rebound): unless the handle is
+    -- one that the manager keeps alive for ever (`permanentHandleCalls`), or the function or a
+    -- container of it holds a reference on `x`, nothing protects `x` any more
+    | .handleDrop x via =>
+      match s.node? x with
+      | none => runPathS loc float returnsNode ls s cs rest
+      | some n =>
+        if permanentHandleCalls.contains via || n.held > 0 || n.inCont > 0 || n.wraps > 0 then
+          runPathS loc float returnsNode ls s cs rest
+        else runPathS loc float returnsNode ls (s.set { n with exposed := true }) cs rest
+    -- every iteration of a loop is reference-neutral: the unrolling (0, 1, 2 iterations) then stands
+    -- for any number of iterations
+    | .iterBegin => runPathS loc float returnsNode (heldSnapshot s :: ls) s cs rest
+    | .iterBreak => runPathS loc float returnsNode ls.tail s cs rest
+    | .iterEnd =>
+      match ls with
+      | [] => .stop (.bad "end of a loop iteration outside a loop" 0)
+      | snap :: ls' =>
+        match iterationNeutral snap s with
+        | some x => .stop (.bad "a loop iteration ends holding (or having given away) a reference it did not hold when it began" x)
+        | none => runPathS loc float returnsNode ls' s cs rest
     -- containers
     | .alloc c fn size =>
-      if !isAllocFn fn then .bad ("not an allocation function: " ++ fn) c else
-      runPathC loc float returnsNode s (setCont cs { id := c, kind := .array, size := size }) rest
-    | .cnew c _ => runPathC loc float returnsNode s (setCont cs { id := c, kind := .pyobj }) rest
-    | .cparam c _ => runPathC loc float returnsNode s (setCont cs { id := c, kind := .param }) rest
+      if !isAllocFn fn then .stop (.bad ("not an allocation function: " ++ fn) c) else
+      runPathS loc float returnsNode ls s (setCont cs { id := c, kind := .array, size := size }) rest
+    | .cnew c _ => runPathS loc float returnsNode ls s (setCont cs { id := c, kind := .pyobj }) rest
+    | .cparam c _ => runPathS loc float returnsNode ls s (setCont cs { id := c, kind := .param }) rest
     | .store c x =>
       match findCont cs c with
-      | none => .bad "store into an untracked container" c
+      | none => .stop (.bad "store into an untracked container" c)
       | some k =>
         match s.node? x with
-        | none => .bad "store of an untracked node" x
+        | none => .stop (.bad "store of an untracked node" x)
         | some n =>
-          if k.freed then .bad "container used after it was freed" c else
-          if float && n.exposed then .bad "unprotected node used after a node-creating call or a recursive dereference" x else
+          if k.freed then .stop (.bad "container used after it was freed" c) else
+          if float && n.exposed then .stop (.bad "unprotected node used after a node-creating call or a recursive dereference" x) else
           if n.held > 0 then
             -- one reference of this function moves into the container
-            runPathC loc float returnsNode (s.set { n with held := n.held - 1, inCont := n.inCont + 1 })
+            runPathS loc float returnsNode ls (s.set { n with held := n.held - 1, inCont := n.inCont + 1 })
               (setCont cs { k with owned := x :: k.owned, released := false }) rest
           else
-            runPathC loc float returnsNode s (setCont cs { k with borrowed := x :: k.borrowed }) rest
+            runPathS loc float returnsNode ls s (setCont cs { k with borrowed := x :: k.borrowed }) rest
     | .load x c =>
       match findCont cs c with
-      | none => .bad "load from an untracked container" c
+      | none => .stop (.bad "load from an untracked container" c)
       | some k =>
-        if k.freed then .bad "container used after it was freed" c else
+        if k.freed then .stop (.bad "container used after it was freed" c) else
         -- an element: kept alive by whoever filled the container, until its references are given back
-        runPathC loc float returnsNode
+        runPathS loc float returnsNode ls
           (s.set ⟨x, .borrowed, 0, 0, 0, 0, false, k.released, [], 0, some c⟩) cs rest
     | .passC c fn =>
       match findCont cs c with
-      | none => .bad "an untracked container is handed to a call" c
+      | none => .stop (.bad "an untracked container is handed to a call" c)
       | some k =>
-        if k.freed then .bad "container used after it was freed" c else
+        if k.freed then .stop (.bad "container used after it was freed" c) else
+        if k.kind == .array && (k.filling || !k.filled) then
+          .stop (.bad ("an array is handed to " ++ fn ++ ", but the loop that fills it was not completed (or there is none)") c) else
         if float && k.released then
-          .bad ("container handed to " ++ fn ++ " after its references were given back") c else
+          .stop (.bad ("container handed to " ++ fn ++ " after its references were given back") c) else
         if float && k.borrowed.any (fun y => (s.node? y).any (·.exposed)) then
-          .bad ("container with an unprotected element handed to " ++ fn ++ " after a node-creating call") c else
+          .stop (.bad ("container with an unprotected element handed to " ++ fn ++ " after a node-creating call") c) else
         -- a function of the same module may store references into a container of ours
         let k' := if loc.contains fn && k.kind != .param then { k with mayHold := true, released := false } else k
-        runPathC loc float returnsNode s (setCont cs k') rest
+        runPathS loc float returnsNode ls s (setCont cs k') rest
     | .derefAll c fn bound =>
       match derefAllStep float s cs c fn bound with
-      | .error v => v
-      | .ok (s', cs') => runPathC loc float returnsNode s' cs' rest
+      | .error v => .stop v
+      | .ok (s', cs') => runPathS loc float returnsNode ls s' cs' rest
     | .free c fn =>
-      if !isFreeFn fn then .bad ("not a deallocation function: " ++ fn) c else
+      if !isFreeFn fn then .stop (.bad ("not a deallocation function: " ++ fn) c) else
       match findCont cs c with
-      | none => .bad "free of an untracked container" c
+      | none => .stop (.bad "free of an untracked container" c)
       | some k =>
-        if k.freed then .bad "container freed twice" c else
-        if k.kind == .pyobj then .bad "a Python object is freed" c else
-        runPathC loc float returnsNode s (setCont cs { k with freed := true }) rest
+        if k.freed then .stop (.bad "container freed twice" c) else
+        if k.kind == .pyobj then .stop (.bad "a Python object is freed" c) else
+        runPathS loc float returnsNode ls s (setCont cs { k with freed := true }) rest
     | .refNonPos x =>
       match s.node? x with
-      | none => runPathC loc float returnsNode s cs rest
+      | none => runPathS loc float returnsNode ls s cs rest
       | some n =>
         -- the path assumes `x.ref <= 0`.  While this function, a handle or a container holds a
         -- reference on `x` the count is at least 1 (CUDD's counters saturate, they never wrap):
         -- the path cannot be taken, nothing is to be checked on it
-        if n.held > 0 || n.wraps > 0 || n.inCont > 0 then .ok else
-        runPathC loc float returnsNode s cs rest
+        if n.held > 0 || n.wraps > 0 || n.inCont > 0 then .stop .ok else
+        runPathS loc float returnsNode ls s cs rest
     -- the counter of a handle: only `init` / `__dealloc__` / `incref` / `decref` may change it
-    | .fieldAdd h _ => .bad ("the counter `_ref` of a handle is changed outside init / __dealloc__ / incref / decref: " ++ h) 0
-    | .fieldSet h _ => .bad ("the counter `_ref` of a handle is changed outside init / __dealloc__ / incref / decref: " ++ h) 0
-    | .fieldTest _ _ _ _ => runPathC loc float returnsNode s cs rest
-    | .handleNode _ _ => runPathC loc float returnsNode s cs rest
+    | .fieldAdd h _ => .stop (.bad ("the counter `_ref` of a handle is changed outside init / __dealloc__ / incref / decref: " ++ h) 0)
+    | .fieldSet h _ => .stop (.bad ("the counter `_ref` of a handle is changed outside init / __dealloc__ / incref / decref: " ++ h) 0)
+    | .fieldTest _ _ _ _ => runPathS loc float returnsNode ls s cs rest
+    | .handleNode _ _ => runPathS loc float returnsNode ls s cs rest
     | .setField x f y =>
       -- `x.next = y`: the collision chain of the unique table, (ab)used as a traversal mark; the
       -- field carries no reference, nothing moves
-      if f != "next" then .bad ("a node is stored into a field without an assumed meaning: " ++ f) x else
+      if f != "next" then .stop (.bad ("a node is stored into a field without an assumed meaning: " ++ f) x) else
       match s.node? x, s.node? y with
       | some _, some m =>
-        if float && m.exposed then .bad "unprotected node used after a node-creating call or a recursive dereference" y else
-        runPathC loc float returnsNode s cs rest
-      | _, _ => .bad "field store on an untracked node" x
+        if float && m.exposed then .stop (.bad "unprotected node used after a node-creating call or a recursive dereference" y) else
+        runPathS loc float returnsNode ls s cs rest
+      | _, _ => .stop (.bad "field store on an untracked node" x)
+
+def runPathC (loc : List String) (float : Bool) (returnsNode : Bool) (s : PathSt) (cs : List ContSt)
+    (evs : List CEv) : PathVerdict :=
+  match runPathS loc float returnsNode [] s cs evs with
+  | .fin s' cs' => endOkC s' cs'
+  | .stop v => v
 
 def runPath (loc : List String) (float : Bool) (returnsNode : Bool) (s : PathSt) (evs : List CEv) :
     PathVerdict :=
   runPathC loc float returnsNode s [] evs
+
+/-! #### exceptions raised inside callees
+
+A call that may raise a Python exception (classified by the reader from the callee's NAME: anything
+but a C function declared in an `extern` block / the `.pxd` / cimported from libc, and the module's
+own `cdef` functions that contain no `raise`/`assert` and call only such functions) gives an extra
+path that ends in `raiseIn site line` right after the arguments were evaluated: the callee had no
+effect on what THIS function holds (every callee is checked on its own), the enclosing `finally`
+blocks run, `except` handlers that may match are entered.  Such a path must end like any other:
+holding no reference, every own container empty — or it is one of `knownExceptionLeaks`
+(DD/CWrapReviewed.lean), identified by function, site and WHAT is still held. -/
+
+def CPath.exceptional (p : CPath) : Bool :=
+  match p.events.getLast? with
+  | some (.raiseIn _ _) => true
+  | _ => false
+
+def CPath.exitSite (p : CPath) : String :=
+  match p.events.getLast? with
+  | some (.raiseIn site _) => site
+  | _ => ""
+
+/-- how the node `x` came into the path: the parameter text, the C function, `load` -/
+def nodeDescr (x : Nat) : List CEv → String
+  | [] => "?"
+  | .param y w :: r => if x == y then w else nodeDescr x r
+  | .produce y fn _ :: r => if x == y then fn else nodeDescr x r
+  | .load y _ :: r => if x == y then "load" else nodeDescr x r
+  | _ :: r => nodeDescr x r
+
+def insertById (n : NodeSt) : List NodeSt → List NodeSt
+  | [] => [n]
+  | m :: r => if n.id ≤ m.id then n :: m :: r else m :: insertById n r
+
+def sortById (s : List NodeSt) : List NodeSt := s.foldr insertById []
+
+def insertCont (n : ContSt) : List ContSt → List ContSt
+  | [] => [n]
+  | m :: r => if n.id ≤ m.id then n :: m :: r else m :: insertCont n r
+
+def ContKind.name : ContKind → String
+  | .array => "array" | .pyobj => "pyobj" | .param => "param"
+
+/-- what the function still owns when a path ends: per node (in the order of their numbers) the
+references held; per own container that still holds references (or was handed to a function of the
+module, which may have stored some) one entry; per array that is not freed one entry -/
+def exitSummary (loc : List String) (m : CMethod) (p : CPath) : Option (List (String × Int)) :=
+  match runPathS loc false m.returnsNode [] [] [] p.events with
+  | .stop _ => none
+  | .fin s cs =>
+    let cs' := cs.foldr insertCont []
+    some (((sortById s).filter (·.held != 0)).map (fun n => (nodeDescr n.id p.events, n.held)) ++
+      ((cs'.filter fun k => k.kind != .param && (!k.owned.isEmpty || k.mayHold)).map
+        fun k => ("container " ++ k.kind.name, (0 : Int))) ++
+      ((cs'.filter fun k => k.kind == .array && !k.freed).map fun _ => ("array not freed", (0 : Int))))
 
 /-- `ok`, or nothing worse than an array that is not freed (reported apart: `pathArraysFreed`) -/
 def PathVerdict.refsOk : PathVerdict → Bool
@@ -559,6 +680,7 @@ def pathArraysFreed (loc : List String) (m : CMethod) (p : CPath) : Bool :=
 def endsInRaiseOf (exc : String) : List CEv → Bool
   | [] => false
   | [.raise e] => e == exc
+  | [.raiseIn site _] => site == exc
   | _ :: r => endsInRaiseOf exc r
 
 /-- the path assumes `x.ref <= 0` although a reference on `x` is held: it cannot be taken -/
@@ -587,6 +709,7 @@ def countRefAll : List CEv → Nat
 def endsInRaise : List CEv → Bool
   | [] => false
   | [.raise _] => true
+  | [.raiseIn _ _] => true
   | _ :: r => endsInRaise r
 
 def hasGuard (c : String) (h : Bool) (es : List CEv) : Bool :=
@@ -597,12 +720,15 @@ def hasGuard (c : String) (h : Bool) (es : List CEv) : Bool :=
 /-- `wrap(bdd, node)`: exactly one path, which hands the node parameter to `init` once and
 touches no reference itself -/
 def wrapFnOk (m : CMethod) : Bool :=
-  match m.paths with
-  | [p] =>
-    (match p.events with
-     | [.param x _, .initCall y, .retHandle] => x == y
-     | _ => false)
-  | _ => false
+  (match m.paths.filter (fun p => !p.exceptional) with
+   | [p] =>
+     (match p.events with
+      | [.param x _, .initCall y, .retHandle] => x == y
+      | _ => false)
+   | _ => false) &&
+  -- `Function()` or `init` raises: nothing was taken before
+  (m.paths.all fun p => !p.exceptional || p.events.all fun e =>
+    match e with | .param .. | .raiseIn .. => true | _ => false)
 
 /-- `Function.init(node, bdd)` / `Function.__cinit__(node)`: every path that does not raise
 takes exactly one reference, on the parameter, and gives none back; a raising path takes none -/
@@ -763,7 +889,7 @@ def refApiOk (inc : Bool) (m : CMethod) : Bool :=
 
 def CEv.isContEv : CEv → Bool
   | .alloc .. | .cnew .. | .cparam .. | .store .. | .load .. | .passC .. | .derefAll .. | .free ..
-  | .refNonPos .. | .setField .. => true
+  | .refNonPos .. | .setField .. | .fillBegin .. | .fillEnd .. | .handleDrop .. => true
   | _ => false
 
 /-- the functions with a special role keep no reference in a container -/
@@ -773,7 +899,7 @@ def noContEvents (m : CMethod) : Bool :=
 /-- `hasField`: the handles of the back end carry the counter `_ref` (`Gen.cRefFieldBackends`) -/
 def methodOkF (hasField : Bool) (loc : List String) (m : CMethod) : Bool :=
   match m.role with
-  | .plain => m.paths.all (pathBalanced loc m)
+  | .plain => m.paths.all fun p => p.exceptional || pathBalanced loc m p
   | .wrapFn => wrapFnOk m && noContEvents m && fieldMethodOk false m
   | .handleInit => initOk m && noContEvents m && fieldMethodOk hasField m
   | .handleDealloc => deallocOk hasField m && noContEvents m && fieldMethodOk hasField m
